@@ -1208,6 +1208,14 @@ func runC19Cand(c *Ctx) {
 				if cnd.Call.IsInvoke() && cnd.Call.Method.Name() == "Equals" {
 					if f, _ := fieldLoad(cnd.Call.Args[0]); f == "MatrixAssign.Value" {
 						nEq++
+						// an equal value is what is left out: the append is not reached from the true edge of the test
+						// within the same iteration over the assignments
+						if reachableBlocks([]*ssa.BasicBlock{b.Succs[0]}, map[*ssa.BasicBlock]bool{hdr: true})[apd.Block()] {
+							bad = append(bad, "the value is appended when it Equals() a present value (test at "+p.Pos(cnd.Pos())+")")
+						}
+						if !reachableBlocks([]*ssa.BasicBlock{b.Succs[1]}, map[*ssa.BasicBlock]bool{hdr: true})[apd.Block()] {
+							bad = append(bad, "the value is not appended when it differs from a present value (test at "+p.Pos(cnd.Pos())+")")
+						}
 						continue
 					}
 				}
@@ -1303,6 +1311,9 @@ func runC19Cand(c *Ctx) {
 	}
 	if nSub == 0 {
 		c.bad("(*RuleMatrix).checkExclude|exclude value against candidates", fn.Pos(), "exclude values are not matched with the subset test")
+	}
+	for _, call := range subCalls {
+		c19ExcludeVerdict(c, call)
 	}
 	// unknown key
 	okUnknown := false
